@@ -17,7 +17,7 @@ type c18Case struct {
 	N       int   `json:"n"`
 	Issuer  []int `json:"issuer"`  // -1 none, 0..n-1 entity, n = undefined alias
 	AMode   []int `json:"amode"`   // 0 file-derived, 1 explicit unique, 2 explicit = next entity's alias, 3 explicit = next entity's file stem
-	Layout  int   `json:"layout"`  // 0 flat, 1 own sub-directory, 2 two levels, 3 same base name in different directories
+	Layout  int   `json:"layout"`  // 0 flat, 1 own sub-directory, 2 two levels, 3 same base name in different directories, 4 entities 0 and 1 share directory and stem but differ in suffix
 	Suffix  int   `json:"suffix"`  // index into c18Suffixes (rotated per entity)
 	CLI     bool  `json:"cli"`     // additionally replay on the binary
 	Foreign bool  `json:"foreign"` // place the foreign files
@@ -37,6 +37,13 @@ func c18Path(c *c18Case, i int) string {
 		return fmt.Sprintf("a/b%d/e%d%s", i, i, suf)
 	case 3:
 		return fmt.Sprintf("d%d/node%s", i, suf)
+	case 4:
+		if i <= 1 {
+			// same directory, same stem, different suffix
+			pair := [][2]string{{".yaml", ".yml"}, {".yml", ".json"}, {".json", ".YAML"}, {".yaml", ".YAML"}, {".Yml", ".yml"}, {".JSON", ".yaml"}}[c.Suffix%6]
+			return "shared/twin" + pair[i]
+		}
+		return fmt.Sprintf("e%d%s", i, suf)
 	}
 	return fmt.Sprintf("e%d%s", i, suf)
 }
@@ -192,6 +199,34 @@ func c18Enumerate(tier string, yield func(any)) {
 				}
 				if k == n {
 					break
+				}
+			}
+			k := 0
+			for k < n {
+				iss[k]++
+				if iss[k] <= n {
+					break
+				}
+				iss[k] = -1
+				k++
+			}
+			if k == n {
+				break
+			}
+		}
+	}
+	// (b2) two config files with the same directory and stem but different suffixes: their
+	// file-derived (or equal explicit) aliases collide; distinct explicit aliases would share
+	// one artifact path and are outside the statement
+	for n := 2; n <= 3; n++ {
+		iss := make([]int, n)
+		for i := range iss {
+			iss[i] = -1
+		}
+		for {
+			for suf := 0; suf < 6; suf++ {
+				for _, am := range [][]int{{0, 0, 0}, {2, 0, 0}, {0, 0, 1}} {
+					yield(&c18Case{N: n, Issuer: append([]int{}, iss...), AMode: append([]int{}, am[:n]...), Layout: 4, Suffix: suf, Foreign: suf%2 == 0, CLI: suf == 0 && am[0] == 0})
 				}
 			}
 			k := 0
@@ -371,7 +406,7 @@ func init() {
 	register(&engine.Check{
 		ID:    "C18",
 		Level: "model_checking",
-		Rule: "every issuer function issuer:[n]->{none,0..n-1,undefined} for n<=4 (quick) / n<=6 (thorough); for n<=3 additionally every alias-mode vector in {file-derived, explicit unique, explicit = next entity's alias, explicit = next entity's file stem}^n x 4 directory layouts and 6 suffix/letter-case variants x 3 layouts; foreign files present. " +
+		Rule: "every issuer function issuer:[n]->{none,0..n-1,undefined} for n<=4 (quick) / n<=6 (thorough); for n<=3 additionally every alias-mode vector in {file-derived, explicit unique, explicit = next entity's alias, explicit = next entity's file stem}^n x 4 directory layouts and 6 suffix/letter-case variants x 3 layouts; for n in {2,3} every issuer function with two config files sharing directory and stem under 6 suffix pairs (alias collision); foreign files present. " +
 			"Each case builds the directory, runs Open+Plan+BulkUpdate on simfs (and the built CLI binary for the flagged subset) and compares with the model valid <=> all issuers defined, acyclic, aliases unique. non-trivial = distinct (issuer function, alias modes, layout, suffix) case that reached the verdict comparison",
 		Bound:       map[string]string{"entities": "quick<=4, thorough<=6", "alias/layout/suffix variants": "n<=3"},
 		Assumptions: []string{"file stems are distinct per directory and non-empty (a.yaml + a.yml sharing a.pem is outside the statement's quantifier)", "keys are P-224 to keep generation cheap; C18 does not depend on the key type"},
